@@ -13,6 +13,8 @@ PAYLOADS = [
 ]
 LONG = "L" * 65536
 # valid regular expressions that try to leave a (raw) string literal
+# text that starts like a number but is not one
+NUMTEXT_PAYLOADS = ["7 * 24 * 3600", "1 + spec_injected_fn() - 1", "9; fn pwn() {}", "1u8 as i64", "0x10", "1_000", "3.0e2 + 1.0", "12 /* c */", "true && panic!()", "1) , (2"]
 PATTERN_PAYLOADS = ['^href="# // [a-z]+$', 'a"#.repeat(3).as_str() // "', 'x"##y"###z', 'q"# ; let _x = 1; //', "^a\\d+\"$", "r#\"x\"#", "[\"']+", "^\\\\$"]
 
 
@@ -64,7 +66,9 @@ def base_spec():
                                    {"name": "X-H", "in": "header", "description": "HD " + INERT, "schema": {"type": "string", "example": "ex"}}],
                     "responses": {"200": {"description": "RD " + INERT, "content": {"application/json": {"schema": {"$ref": "#/components/schemas/Item"}}}}}}}},
         "components": {"schemas": {
-            "NewItem": {"type": "object", "properties": {"code": {"type": "string", "pattern": "^abc$"}, "label": {"type": "string", "default": "lb", "maxLength": 40}}},
+            "NewItem": {"type": "object", "properties": {"code": {"type": "string", "pattern": "^abc$"}, "label": {"type": "string", "default": "lb", "maxLength": 40},
+                                                         "count": {"type": "integer", "default": "n/a"}, "size": {"type": "integer", "format": "int32", "minimum": 0, "default": "n/a"},
+                                                         "ratio": {"type": "number", "default": "n/a"}, "on": {"type": "boolean", "default": "n/a"}}},
             "Item": {"type": "object", "description": "SD " + INERT, "title": "ItemTitle",
                      "properties": {"name": {"type": "string", "description": "FD " + INERT, "default": "nm", "example": "ex2"},
                                     "kind": {"type": "string", "enum": ["alpha", "beta"], "description": "ED " + INERT},
@@ -107,6 +111,11 @@ POSITIONS = [
     P(["components", "schemas", "NewItem", "properties", "code", "pattern"], kind="rawpattern"),
     P(["components", "schemas", "NewItem", "properties", "code", "pattern"], wrap=lambda t: "^" + re.escape(t) + "$"),
     P(["components", "schemas", "NewItem", "properties", "label", "default"]),
+    # defaults of numeric / boolean members written as JSON strings (the text is coerced to a literal of the member's type)
+    P(["components", "schemas", "NewItem", "properties", "count", "default"], kind="numtext"),
+    P(["components", "schemas", "NewItem", "properties", "size", "default"], kind="numtext"),
+    P(["components", "schemas", "NewItem", "properties", "ratio", "default"], kind="numtext"),
+    P(["components", "schemas", "NewItem", "properties", "on", "default"], kind="numtext"),
     P(["servers", 0, "url"], wrap=lambda t: "https://example.com/" + t),
     P(["components", "schemas", "Item", "properties", "kind", "enum", 1], kind="ident"),
     P(["components", "schemas", "Kind", "enum", 0], kind="ident"),
@@ -141,7 +150,7 @@ def main(tier, seed, replay=None):
     POS_UNIQ = []
     for k, pos in enumerate(POSITIONS):
         POS_UNIQ.append((pos[0] + ("#raw" if pos[2] == "rawpattern" else ""),) + tuple(pos[1:]))
-    jobs = [("inert", None, m) for m in modes] + [(pos[0], pl, m) for pos in POS_UNIQ for pl in (PATTERN_PAYLOADS if pos[2] == "rawpattern" else payloads) for m in modes]
+    jobs = [("inert", None, m) for m in modes] + [(pos[0], pl, m) for pos in POS_UNIQ for pl in (PATTERN_PAYLOADS if pos[2] == "rawpattern" else NUMTEXT_PAYLOADS if pos[2] == "numtext" else payloads + (["v2/", "a//", "x*/"] if pos[0].startswith("servers") else [])) for m in modes]
     if replay:
         r = json.load(open(replay))
         jobs = [("inert", None, r["mode"]), (r["position"], r["payload"], r["mode"])]
@@ -184,7 +193,7 @@ def main(tier, seed, replay=None):
         if bad:
             viol.append((posname, pl, mode, f"payload {pl[:30]!r} at {posname}: emitted file does not lex/parse: {bad[0]['error'][:200]}"))
             continue
-        key = "skeleton" if kind in ("text", "rawpattern") else "skeleton_noident"
+        key = "skeleton" if kind in ("text", "rawpattern", "numtext") else "skeleton_noident"
         for a, b in zip(inert[mode], sks):
             if a[key] != b[key]:
                 # first difference
